@@ -130,7 +130,7 @@ def parse_san_logs(d, extra_text=b""):
 
 
 def run(cmd, env=None, stdin=b"", timeout=60, cwd=None, cpu=None, mem_mb=None, stack_kb=None,
-        san=True, keep_dir=False, nproc=None, fsize_mb=None):
+        san=True, keep_dir=False, nproc=None, fsize_mb=None, tick=None):
     """Run one process with rlimits and a wall-clock watchdog. Returns Result."""
     r = Result()
     d = case_dir()
@@ -162,6 +162,17 @@ def run(cmd, env=None, stdin=b"", timeout=60, cwd=None, cpu=None, mem_mb=None, s
                              env=e, cwd=cwd or d, preexec_fn=pre)
     except OSError as ex:
         raise HarnessError("cannot start %r: %s" % (cmd, ex))
+    if tick:
+        # periodic signal (sig, first_delay, period): lets the program bound its own sub-computations
+        def _ticker():
+            time.sleep(tick[1])
+            while p.poll() is None:
+                try:
+                    os.kill(p.pid, tick[0])
+                except OSError:
+                    return
+                time.sleep(tick[2])
+        threading.Thread(target=_ticker, daemon=True).start()
     try:
         r.out, r.err = p.communicate(stdin, timeout=timeout)
     except subprocess.TimeoutExpired:
@@ -235,6 +246,7 @@ class Ctx:
         self.known = [k for k in load_known() if k.get("property") == prop]
         self.lock = threading.Lock()
         self.replay_root = os.path.join(VERIF, "replay", prop)
+        shutil.rmtree(self.replay_root, ignore_errors=True)   # witnesses belong to the current run only
 
     def sub_seed(self, *parts):
         h = hashlib.sha256(("%d|%s|" % (self.seed, self.prop) + "|".join(str(p) for p in parts)).encode()).hexdigest()
